@@ -61,6 +61,10 @@ pub fn run_model(requests: &[Value]) -> Vec<Value> {
         })
         .collect();
     let mut res = vec![serde_json::json!({"r": "driver-failure"}); requests.len()];
+    // VERIF_SAVE_REQS=<file>: keep a sample of (request line, response line) pairs so that the check can re-evaluate
+    // them inside the Coq kernel (vm_compute) and compare with what the extracted driver answered (DESIGN.md 4.1)
+    let save = std::env::var("VERIF_SAVE_REQS").ok();
+    let mut saved: Vec<(usize, String, String)> = vec![];
     for h in handles {
         let (idx, out) = h.join().unwrap();
         for (k, i) in idx.iter().enumerate() {
@@ -68,6 +72,21 @@ pub fn run_model(requests: &[Value]) -> Vec<Value> {
                 if let Ok(v) = serde_json::from_str::<Value>(line) {
                     res[*i] = v;
                 }
+                if save.is_some() && *i % 37 == 0 && saved.len() < 64 {
+                    let req = serde_json::to_string(&requests[*i]).unwrap();
+                    if req.len() < 6000 {
+                        saved.push((*i, req, line.clone()));
+                    }
+                }
+            }
+        }
+    }
+    if let Some(path) = save {
+        use std::io::Write as _;
+        if let Ok(mut f) = std::fs::OpenOptions::new().create(true).append(true).open(path) {
+            saved.sort();
+            for (_, q, a) in saved.into_iter().take(12) {
+                let _ = writeln!(f, "{}\t{}", q, a);
             }
         }
     }
